@@ -1,3 +1,4 @@
+#![cfg_attr(kani, feature(allocator_api))]
 pub mod dispatcher;
 pub use dispatcher::*;
 
@@ -33,3 +34,8 @@ pub use store::*;
 pub mod store_droppable;
 
 pub use store_droppable::*;
+
+// verification hook (H1): Kani harnesses live outside the repository
+#[cfg(kani)]
+#[path = "/verif/kani/harness/mod.rs"]
+mod verif_kani;
